@@ -8,8 +8,8 @@ for name in sys.argv[1:]:
     tmp = tempfile.mkdtemp(prefix='seedre.', dir='/var/tmp'); wt = tmp + '/wt'
     try:
         subprocess.check_call(['git', '-C', '/repo', 'worktree', 'add', '--detach', '-q', wt, 'HEAD'])
-        subprocess.check_call(['git', '-C', wt, 'apply', d + '/patch.diff'])
-        env = dict(os.environ, VERIF_REPO=wt, VERIF_NO_EVIDENCE='1', VERIF_CACHE='/var/tmp/nuverif-selftest-cache')
+        subprocess.check_call(['git', '-C', wt, 'apply', d + ('/patch.head.diff' if os.path.exists(d + '/patch.head.diff') else '/patch.diff')])
+        env = dict(os.environ, VERIF_REPO=wt, VERIF_NO_EVIDENCE='1', VERIF_CACHE=tmp + '/cache')
         fired = {}
         for p in [f'C{i:02d}' for i in range(1, 17)]:
             TR = os.environ.get('VERIF_TOOLS_ROOT', '/verif')
